@@ -501,7 +501,7 @@ finddomainfd(int fd, const char *domain, const int cl)
 int
 finddomain(const char *buf, const off_t size, const char *domain)
 {
-	if (!buf)
+	if (!buf || (size <= 0))
 		return 0;
 
 	size_t dl = strlen(domain);
@@ -537,10 +537,13 @@ finddomain(const char *buf, const off_t size, const char *domain)
 		}
 		cur = cure;
 		if (cure) {
-			while (*cur == '\n') {
+			while ((cur < buf + size) && (*cur == '\n')) {
 				cur++;
 			}
 			pos = cur - buf;
+			/* only newlines up to the end of the buffer: no further entry */
+			if (pos == size)
+				cur = NULL;
 		}
 	} while (cur);
 
